@@ -39,13 +39,34 @@ var solvers = []solverSpec{
 
 // Solve races the solvers on the obligation. The first unsat wins; otherwise the first sat; otherwise unknown.
 func Solve(o *Obligation, dir string, timeoutSec int) *Result {
+	res := solveGoal(o, o.Goal, "", dir, timeoutSec)
+	if res.Status == "unsat" || o.MustFail || len(o.Parts) == 0 || res.Status == "sat" && !o.ctx.NeedsQuant {
+		return res
+	}
+	// the whole goal did not discharge: try it conjunct by conjunct (same hypotheses)
+	total := res.Seconds
+	solver := ""
+	for i, p := range o.Parts {
+		r := solveGoal(o, p, fmt.Sprintf(".part%d", i+1), dir, timeoutSec)
+		total += r.Seconds
+		if r.Status != "unsat" {
+			r.Detail = fmt.Sprintf("conjunct %d of %d: %s", i+1, len(o.Parts), r.Detail)
+			r.Seconds = total
+			return r
+		}
+		solver = r.Solver
+	}
+	return &Result{Ob: o, Status: "unsat", Solver: solver + " (by conjuncts)", Seconds: total, SMTBytes: res.SMTBytes}
+}
+
+func solveGoal(o *Obligation, goal Term, suffix, dir string, timeoutSec int) *Result {
 	if o.MustFail && timeoutSec > 2 {
 		timeoutSec = 2 // reachability canary: "false" must not be provable; no need to wait for a model
 	}
-	smt := o.SMT(true)
+	smt := o.smtFor(goal, true)
 	// cvc5 wants produce-models before set-logic (it is) and rejects (get-model) after unsat with an
 	// error line after the verdict: only the first line is parsed.
-	file := filepath.Join(dir, sanitize(o.Name)+".smt2")
+	file := filepath.Join(dir, sanitize(o.Name)+suffix+".smt2")
 	os.WriteFile(file, []byte(smt), 0o644)
 	res := &Result{Ob: o, SMTBytes: len(smt), Status: "unknown"}
 	type ans struct {
